@@ -80,6 +80,9 @@ def _plain(idn, style, rng):
         return "\x01\x07\x0b\x7f\U000e0001" + tok + "\x1f", tok
     if style == "shared_prefix":      # near-duplicates: a long common prefix, the difference at the very end
         return "customer-records/2024/export-batch-000042/part-" + tok, tok
+    if style == "nul_tail":           # near-duplicates that differ only in trailing U+0000 / blank padding (C10: distinct plaintexts)
+        t = "acct-42" + ["", "\x00", "\x00\x00", " ", "\x00 ", "\x00" * 9][idn % 6]
+        return t, t
     if style == "dollar_inside":
         return tok + "$inside$", tok
     if style == "digits":
